@@ -608,6 +608,44 @@ def gen_group(args):
             full_mid = write("full-mid.mpq", [regular(name, versions[k])])
             arcs2 = arcs[:k + 1] + [{"path": full_mid, "prio": mid, "role": f"full-v{k}"}] + arcs[k + 1:]
             chain_case("full-between", arcs2, "equal", versions[-1], "full-between", top, extra={"top_archive": ppaths[-1]})
+    # histories over a chain with patch entries: archives come and go between reads (a result computed for one chain must not
+    # be served for another). Expectation per step from the statement: winner = highest-priority archive holding the name; a
+    # regular winner is returned as is; a patch winner of level k yields version k when a regular file of version j < k and
+    # all patches j+1..k are in the chain (highest regular file below the winner), otherwise an error or (vacuously) version k.
+    full_hist = write("full-hist.mpq", [regular(name, b"FULL-HIST " + versions[0][:48])])
+    harcs = [dict(a, level=k) for k, a in enumerate(arcs)] + [{"path": full_hist, "prio": prios[-1] + 9, "role": "full", "level": None}]
+    hcontent = [versions[k] for k in range(depth + 1)] + [b"FULL-HIST " + versions[0][:48]]
+
+    def hist_expect(present):
+        if not present:
+            return {"kind": "absent", "expect": None, "winner": "-"}
+        w = max(present, key=lambda i: harcs[i]["prio"])
+        if harcs[w]["level"] in (0, None):
+            return {"kind": "equal", "expect": hcontent[w].hex(), "winner": "regular"}
+        k = harcs[w]["level"]
+        ok = all(j in present for j in range(0, k))          # base (level 0) and every patch below the winner
+        return {"kind": "equal" if ok else "err-or-equal", "expect": versions[k].hex(), "winner": f"patch{'+complete' if ok else '+gap'}"}
+
+    for hn in range(2 if quick else 4):
+        present, steps = [], []
+        n_steps = 7 + (g + hn) % 5
+        for sidx in range(n_steps):
+            absent = [i for i in range(len(harcs)) if i not in present]
+            # build up first, then alternate: removals of the current winner and re-additions are what invalidates results
+            if absent and (not present or rng.random() < (0.75 if len(present) < len(harcs) - 1 else 0.4)):
+                i = rng.choice(absent)
+                present.append(i)
+                op = {"op": "add", "arc": i}
+            else:
+                i = max(present, key=lambda j: harcs[j]["prio"]) if rng.random() < 0.6 else rng.choice(present)
+                present.remove(i)
+                op = {"op": "remove", "arc": i}
+            op.update(hist_expect(present))
+            oth = [j for j in present if harcs[j]["level"] == 0 or harcs[j]["level"] == depth]
+            op["other_expect"] = None if not oth else ((f"patch{depth} ".encode() if any(harcs[j]["level"] == depth for j in oth) else b"base ") + other.encode()).hex()
+            steps.append(op)
+        cases.append({"kind": "chain", "class": f"chain-history|d{depth}|{types}|{layout}|v{version}|h{hn}", "variant": "history", "group": g, "name": name, "lookups": spellings(name),
+                      "archives": harcs, "steps": steps, "other_name": other, "api": "sequential", "traits": chain_traits, "sigtag": types})
     # corrupted variants of one level
     def corrupt_variants(p):
         vs = []
